@@ -206,6 +206,23 @@ G22 == [name |-> "g22", params |-> <<"i64">>, res |-> <<"i64">>, regty |-> <<"i"
                     [op |-> "switch", s |-> <<Reg(2)>>, ls |-> <<3, 4, 5, 6>>],
                     [op |-> "ret", s |-> <<Imm(FromNat(1000))>>], [op |-> "ret", s |-> <<Reg(1)>>],
                     [op |-> "ret", s |-> <<Imm(FromNat(77))>>], [op |-> "ret", s |-> <<Reg(2)>>]>>]
+(* g23 (i64 a) -> i64 : the rarely taken path is placed behind the final ret and jumps back (cold code after the return) *)
+G23 == [name |-> "g23", params |-> <<"i64">>, res |-> <<"i64">>, regty |-> <<"i", "i">>,
+        insns |-> <<Br("blt", 4, <<Reg(1), Imm(Zero64)>>), InsIn("add", Reg(2), <<Reg(1), Imm(One64)>>),
+                    [op |-> "ret", s |-> <<Reg(2)>>],
+                    InsIn("neg", Reg(1), <<Reg(1)>>), InsIn("add", Reg(2), <<Reg(1), Imm(FromNat(100))>>), InsIn("xor", Reg(2), <<Reg(2), Imm(FromNat(5))>>),
+                    [op |-> "jmp", l |-> 3]>>]
+(* g24 (f a, d b) -> d : a float parameter (passed as raw 32 bits, not promoted) ;  g25 (i64 a, blk1:8 x) -> i64 : an 8-byte INTEGER-class block
+   (with g14's 16-byte one: two call signatures that differ only in the size of a register-passed block) *)
+G24 == [name |-> "g24", params |-> <<"f", "d">>, res |-> <<"d">>, regty |-> <<"f", "d", "d">>,
+        insns |-> <<InsIn("f2d", Reg(3), <<Reg(1)>>), InsIn("dadd", Reg(3), <<Reg(3), Reg(2)>>), [op |-> "ret", s |-> <<Reg(3)>>]>>]
+G25 == [name |-> "g25", params |-> <<"i64", "blk1_8">>, res |-> <<"i64">>, regty |-> <<"i", "i", "i">>,
+        insns |-> <<InsIn("add", Reg(3), <<Mem("i64", 0, 2, 0, 1), Reg(1)>>), InsIn("mov", Mem("i64", 0, 2, 0, 1), <<Imm(Ones64)>>),
+                    [op |-> "ret", s |-> <<Reg(3)>>]>>]
+(* g26 (i64 a, blk1:16 x) -> i64 : the signature of g25 with a 16-byte block *)
+G26 == [name |-> "g26", params |-> <<"i64", "blk1_16">>, res |-> <<"i64">>, regty |-> <<"i", "i", "i">>,
+        insns |-> <<InsIn("add", Reg(3), <<Mem("i64", 0, 2, 0, 1), Reg(1)>>), InsIn("xor", Reg(3), <<Reg(3), Mem("i64", 8, 2, 0, 1)>>),
+                    [op |-> "ret", s |-> <<Reg(3)>>]>>]
 FImm(fmt, x) == [k |-> "fimm", fmt |-> fmt, x |-> x]
 FImmVals == {Fin(0, 1, 0), Fin(1, 3, -1), Fin(0, 5, -3), Fin(0, 3, 20), Fin(0, 13, -4), FZero(0), Fin(0, 3, -40), Fin(1, 7, -33)}
 
@@ -245,13 +262,13 @@ KindsInt == {"ibin", "iun", "shift", "div", "br2", "br1", "loop", "ovf", "switch
 KindsFp == {"fbin", "fcmp", "fbr", "i2f", "f2i", "fmovm", "f2f", "callg3", "addrfp", "callva"}
 (* "link": the constructs MIR_link rewrites (calls to inline, allocas, jumps and branch chains, memory operands) *)
 KindsLink == {"callg1", "callg2", "callg3", "callg13", "ext", "alloca", "br2", "br1", "loop", "switch", "ibin", "idx", "jmpi", "ovf", "calla",
-              "callg6", "callg7", "gcall", "rblk", "blkv", "blkv12", "blkv20", "blkv4", "callg21", "icall21", "callg22", "alloca2", "lref1", "lref2", "addrst", "addrcall", "bsblk", "callva", "rcall", "lref3", "ext2", "alloca3", "br1i", "divm", "postinc"}
+              "callg6", "callg7", "gcall", "rblk", "blkv", "blkv12", "blkv20", "blkv4", "callg21", "icall21", "callg22", "callg23", "callg24", "icall24", "callg25", "icall2526", "alloca2", "lref1", "lref2", "addrst", "addrcall", "bsblk", "callva", "rcall", "lref3", "ext2", "alloca3", "br1i", "divm", "postinc"}
 KindsOf == IF Vocab = "int" THEN KindsInt ELSE IF Vocab = "link" THEN KindsLink
          ELSE IF Vocab = "exec" THEN {"callg1", "callg2", "callg3", "calla", "ext", "icall", "icall5", "cb", "jmpi", "switch", "br2", "loop",
-                                      "ibin", "alloca", "fbin", "idx", "callg6", "callg7", "gcall", "rblk", "blkv", "blkv12", "blkv20", "blkv4", "callg21", "icall21", "callg22", "callg12", "callg13", "callg14", "fmovm", "lref1", "lref2", "addrcall", "addrld", "bsblk", "callva", "rload", "rcall", "lref3", "alloca3"}
-         ELSE IF Vocab = "single" THEN (KindsInt \cup KindsFp \cup {"calla", "callg6", "callg7", "rblk", "blkv", "blkv12", "blkv20", "blkv4", "callg21", "icall21", "callg22", "callg12", "callg13",
+                                      "ibin", "alloca", "fbin", "idx", "callg6", "callg7", "gcall", "rblk", "blkv", "blkv12", "blkv20", "blkv4", "callg21", "icall21", "callg22", "callg23", "callg24", "icall24", "callg25", "icall2526", "callg12", "callg13", "callg14", "fmovm", "lref1", "lref2", "addrcall", "addrld", "bsblk", "callva", "rload", "rcall", "lref3", "alloca3"}
+         ELSE IF Vocab = "single" THEN (KindsInt \cup KindsFp \cup {"calla", "callg6", "callg7", "rblk", "blkv", "blkv12", "blkv20", "blkv4", "callg21", "icall21", "callg22", "callg23", "callg24", "icall24", "callg25", "icall2526", "callg12", "callg13",
                                                                       "callg14", "icall", "icall5"}) \ {"callg3", "callva"}   \* functions with at most one result
-         ELSE KindsInt \cup KindsFp \cup {"calla", "callg6", "callg7", "rblk", "blkv", "blkv12", "blkv20", "blkv4", "callg21", "icall21", "callg22", "callg12", "callg13", "callg14"}
+         ELSE KindsInt \cup KindsFp \cup {"calla", "callg6", "callg7", "rblk", "blkv", "blkv12", "blkv20", "blkv4", "callg21", "icall21", "callg22", "callg23", "callg24", "icall24", "callg25", "icall2526", "callg12", "callg13", "callg14"}
 NeedFull == {"pld", "pst", "gcall", "pidxst"}
 KindsGlob == IF ~UseG THEN {} ELSE {"gset", "gget", "gadd"} \cup (IF Glob = "calls" THEN {"gcall2"} ELSE {})
 KindsAbs == IF Abs /\ Vocab \in {"all", "link", "int", "single"} THEN {"absld", "absst", "absd"} ELSE {}
@@ -312,6 +329,11 @@ Holes(k) ==
     [] k = "icall" -> <<"ireg", "isrc", "isrc">>
     [] k = "icall5" -> <<"ireg", "isrc">>
     [] k = "callg22" -> <<"ireg", "isrc">>
+    [] k = "callg23" -> <<"ireg", "isrc">>
+    [] k = "callg24" -> <<"ffreg", "dsrc">>
+    [] k = "icall24" -> <<"ffreg", "dsrc">>
+    [] k = "callg25" -> <<"ireg", "isrc", "isrc">>
+    [] k = "icall2526" -> <<"ireg", "isrc", "isrc">>
     [] k = "callg21" -> <<"ireg", "isrc">>
     [] k = "icall21" -> <<"ireg", "isrc">>
     [] k = "cb" -> <<"ireg", "extid", "isrc">>
@@ -369,6 +391,7 @@ Dom(h) ==
     [] h = "qmem" -> {Mem("i64", 0, RTMP, 0, 1), Mem("i64", 24, RTMP, 0, 1), Mem("u8", 24, RTMP, 0, 1), Mem("i32", 28, RTMP, 0, 1), Mem("u16", 2, RTMP, 0, 1)}
     [] h = "qfmem" -> {Mem("ld", 8, RTMP, 0, 1)}
     [] h = "dsrc" -> {Reg(r) : r \in DRegs}
+    [] h = "ffreg" -> {Reg(r) : r \in FRegs}
     [] h = "subld" -> {Mem("u8", 12, PA, 0, 1), Mem("u16", 14, PA, 0, 1), Mem("i32", 12, PA, 0, 1), Mem("u8", 9, PA, 0, 1), Mem("i16", 10, PA, 0, 1)}
 
 ExtOf(ty) == CASE ty = "i8" -> "ext8" [] ty = "u8" -> "uext8" [] ty = "i16" -> "ext16" [] ty = "u16" -> "uext16"
@@ -527,6 +550,22 @@ Render(k, v) ==
     [] k = "icall5" -> <<InsIn("mov", Reg(RTMP2), <<Ref(6)>>),
                          [op |-> "call", callee |-> [k |-> "reg", r |-> RTMP2, f |-> 6], res |-> <<v[1]>>, args |-> <<v[2]>>]>>
     \* an unsigned 32-bit result, called directly (may be inlined) and through a register (never inlined)
+    [] k = "callg24" -> <<[op |-> "call", callee |-> [k |-> "func", f |-> 25], res |-> <<Reg(12)>>, args |-> <<v[1], v[2]>>]>>
+    [] k = "icall24" -> <<InsIn("mov", Reg(RTMP2), <<Ref(25)>>),
+                          [op |-> "call", callee |-> [k |-> "reg", r |-> RTMP2, f |-> 25], res |-> <<Reg(13)>>, args |-> <<v[1], v[2]>>]>>
+    [] k = "callg25" -> <<[op |-> "alloca", d |-> Reg(PA), s |-> <<Imm(FromNat(16))>>],
+                          InsIn("mov", Mem("i64", 0, PA, 0, 1), <<v[2]>>),
+                          [op |-> "call", callee |-> [k |-> "func", f |-> 26], res |-> <<v[1]>>, args |-> <<v[3], BlkArg("blk1_8", PA)>>],
+                          InsIn("add", v[1], <<v[1], Mem("i64", 0, PA, 0, 1)>>)>>
+    \* the 8-byte and the 16-byte block signature called through registers one after the other (never inlined: real calls in every engine)
+    [] k = "icall2526" -> <<[op |-> "alloca", d |-> Reg(PA), s |-> <<Imm(FromNat(16))>>],
+                            InsIn("mov", Mem("i64", 0, PA, 0, 1), <<v[2]>>), InsIn("mov", Mem("i64", 8, PA, 0, 1), <<Imm(FromNat(77))>>),
+                            InsIn("mov", Reg(RTMP2), <<Ref(26)>>),
+                            [op |-> "call", callee |-> [k |-> "reg", r |-> RTMP2, f |-> 26], res |-> <<v[1]>>, args |-> <<v[3], BlkArg("blk1_8", PA)>>],
+                            InsIn("mov", Reg(RTMP2), <<Ref(27)>>),
+                            [op |-> "call", callee |-> [k |-> "reg", r |-> RTMP2, f |-> 27], res |-> <<Reg(RTMP)>>, args |-> <<v[1], BlkArg("blk1_16", PA)>>],
+                            InsIn("add", v[1], <<v[1], Reg(RTMP)>>)>>
+    [] k = "callg23" -> <<[op |-> "call", callee |-> [k |-> "func", f |-> 24], res |-> <<v[1]>>, args |-> <<v[2]>>]>>
     [] k = "callg22" -> <<[op |-> "call", callee |-> [k |-> "func", f |-> 23], res |-> <<v[1]>>, args |-> <<v[2]>>]>>
     [] k = "callg21" -> <<[op |-> "call", callee |-> [k |-> "func", f |-> 22], res |-> <<v[1]>>, args |-> <<v[2]>>]>>
     [] k = "icall21" -> <<InsIn("mov", Reg(RTMP2), <<Ref(22)>>),
@@ -622,7 +661,7 @@ MainFunc ==
 Finalize ==
   /\ phase = "build" /\ slot = NSlots + 1 /\ cur.kind = ""
   /\ phase' = "run"
-  /\ prog' = [funcs |-> <<MainFunc, G1, G2, G3, G4, G5, G6, G7, G8, G9, G10, G11, G12, G13, G14, G15, G16, G17, G18, G19, G20, G21, G22>>]
+  /\ prog' = [funcs |-> <<MainFunc, G1, G2, G3, G4, G5, G6, G7, G8, G9, G10, G11, G12, G13, G14, G15, G16, G17, G18, G19, G20, G21, G22, G23, G24, G25, G26>>]
   /\ mem' = InitMem(InitBuf, LrSeq)
   /\ frames' = InitFrames
   /\ status' = "run"
